@@ -933,6 +933,11 @@ func (fr *Frame) store(addr, v *Val, st *State, reach, pos string) {
 	case KAddr:
 		if addr.A.Kind == AField {
 			x.checkTypeInv(addr.A, v, reach, pos)
+			if key := "F|" + shortTypeFull(addr.A.Owner) + "|" + strings.Join(addr.A.PathN, "."); x.immutableComp(key) && x.specMode == 0 {
+				// only objects allocated by this very call may have their immutable fields initialised
+				x.addObl("immutable-field-store", namedOf(addr.A.Owner).Obj().Name()+"."+strings.Join(addr.A.PathN, "."), pos, reach,
+					sNot(sSel(x.get(x.entry, x.allocComp()), addr.A.Base)))
+			}
 		}
 		x.storeAddr(addr.A, v, st)
 	case KScalar:
